@@ -468,6 +468,69 @@ def run(ctx):
         raise AnalysisError('C05.R7: only %d discarded-merge sites'
                             % n_sites)
 
+    # ---- R8 accumulators ----------------------------------------------------------------------
+    r8 = ctx.rule('R8', 'contexts that are accumulated over a loop carry '
+                  'what earlier iterations contributed', 'dataflow')
+    accumulators(ctx, r8)
+
+
+# (function, accumulated variable): the variable is initialised before a
+# loop, re-assigned inside it and returned; every in-loop re-assignment must
+# be computed from the previous value.
+ACCUMULATORS = [
+    ('mistral.workflow.direct_workflow.DirectWorkflowController.'
+     'evaluate_workflow_final_context', 'ctx'),
+    ('mistral.workflow.data_flow.evaluate_upstream_context',
+     'published_vars'),
+]
+
+
+def accumulators(ctx, rule):
+    prog = ctx.prog
+    for q, var in ACCUMULATORS:
+        f = prog.func(q)
+        loops = [x for x in own_nodes(f.node)
+                 if isinstance(x, (ast.For, ast.While))]
+        inloop = []
+        for lp in loops:
+            for x in ast.walk(lp):
+                if isinstance(x, ast.Assign) and any(
+                        dotted(t) == var for t in x.targets):
+                    if x not in inloop:
+                        inloop.append(x)
+        if not inloop:
+            raise AnalysisError('C05.R8: %s no longer accumulates %s in a '
+                                'loop' % (q, var))
+        for x in inloop:
+            uses = {y.id for y in ast.walk(x.value)
+                    if isinstance(y, ast.Name)}
+            rule.check(var in uses, ctx.construct(f, x),
+                       '%s is re-assigned inside the loop from a value that '
+                       'does not depend on its previous value: what earlier '
+                       'iterations (batches / upstream tasks) contributed '
+                       'is dropped' % var, ctx.loc(f, x))
+    # the additive context, when given, is the merge base
+    eu = prog.func('mistral.workflow.data_flow.evaluate_upstream_context')
+    cfg = ctx.cfg(eu)
+    base = [x for x in own_nodes(eu.node) if isinstance(x, ast.Assign) and
+            dotted(x.targets[0]) == 'ctx' and
+            dotted(x.value) == 'additive_context']
+    rule.check(len(base) == 1 and U.guarded(
+        cfg, cfg.stmt_node(base[0]), 'additive_context', True),
+        ctx.construct(eu, extra='additive context is the merge base'),
+        'a given additive context is not used as the base of the version '
+        'merge', ctx.loc(eu))
+    merges = [n for n, c in cfg.calls(
+        lambda c: U.call_name(c) == 'merge_context_by_version')]
+    rets = [x for x in cfg.nodes if x.kind == 'stmt' and
+            isinstance(x.ast, ast.Return) and dotted(x.ast.value) == 'ctx']
+    rule.check(bool(merges) and bool(rets) and all(
+        norm(c.args[0]) == 'ctx' for n, c in cfg.calls(
+            lambda c: U.call_name(c) == 'merge_context_by_version')),
+        ctx.construct(eu, extra='merged into ctx, ctx returned'),
+        'upstream contexts are not merged into the returned context',
+        ctx.loc(eu))
+
 
 def clean_rebind(ctx, f, name_node):
     """The use of local `name` at name_node is dominated by an assignment
